@@ -163,6 +163,7 @@ func init() {
 			ruleAccumulator(c, "accumulator", pkgRepo+".(*Checker).LoadIndex")
 			ruleCheckPackGuards(c)
 			ruleCheckExit(c, false)
+			ruleCheckFreshCache(c)
 		},
 		Controls: []Control{
 			{Name: "ignore-tree-errors-in-check", File: "cmd/restic/cmd_check.go",
